@@ -34,6 +34,31 @@ def _const_value(text, operand):
     return None, operand
 
 
+def _resolve(fn, text, operand, depth=0):
+    """Value of a u64 operand that is a constant or constant arithmetic over constants (`CALL_STACK_LIMIT + 1`), else None."""
+    operand = operand.strip()
+    k, desc = _const_value(text, operand)
+    if k is not None or depth > 4:
+        return k, desc
+    m = re.match(r"^(?:move|copy) (?:\((_\d+)\.0: u64\)|(_\d+))$", operand)
+    if not m:
+        return None, operand
+    loc = m.group(1) or m.group(2)
+    defs = [mm.group(1) for b in fn.blocks.values() for st in b.stmts for mm in [re.match(r"^%s = (.*)$" % re.escape(loc), st)] if mm]
+    if len(defs) != 1:
+        return None, operand
+    d = defs[0]
+    mm = re.match(r"^(Add|Sub|Mul)(?:WithOverflow)?\((.+?), (.+)\)$", d)
+    if mm:
+        a, _ = _resolve(fn, text, mm.group(2), depth + 1)
+        b, _ = _resolve(fn, text, mm.group(3), depth + 1)
+        if a is None or b is None:
+            return None, operand
+        v = {"Add": a + b, "Sub": a - b, "Mul": a * b}[mm.group(1)]
+        return (v, f"{d} = {v}") if 0 <= v < 2 ** 64 else (None, operand)
+    return _resolve(fn, text, d, depth + 1)
+
+
 def _depth_guard(fn, text):
     """(smt predicate over `d` that is true when the frame is refused, description) for the body `fn`, or (None, why)."""
     sites = []
@@ -60,10 +85,10 @@ def _depth_guard(fn, text):
     if not sw:
         return None, f"the comparison result does not steer a two-way branch: {nb.term}"
     if d_local in a.split():
-        k, kdesc = _const_value(text, b_)
+        k, kdesc = _resolve(fn, text, b_)
         lhs, rhs = "d", None
     else:
-        k, kdesc = _const_value(text, a)
+        k, kdesc = _resolve(fn, text, a)
         lhs, rhs = None, "d"
     if k is None:
         return None, f"the depth is compared with something that is not a u64 constant: {kdesc}"
@@ -87,9 +112,9 @@ def _depth_guard(fn, text):
         return False
     z, o = names_too_deep(sw.group(1)), names_too_deep(sw.group(2))
     if o and not z:
-        return pred, f"refuses iff depth {op} {kdesc} ({k})"
+        return pred, (f"refuses iff depth {op} {kdesc} ({k})" if lhs else f"refuses iff {kdesc} ({k}) {op} depth")
     if z and not o:
-        return f"(not {pred})", f"refuses iff not (depth {op} {kdesc} ({k}))"
+        return f"(not {pred})", (f"refuses iff not (depth {op} {kdesc} ({k}))" if lhs else f"refuses iff not ({kdesc} ({k}) {op} depth)")
     return None, f"cannot tell which side of the depth comparison answers CallTooDeep (0-side {z}, other side {o})"
 
 
